@@ -1,4 +1,5 @@
 import XvcRepo.Props.C01
+import XvcRepo.RecGrow
 /-!
   # C04 — Every committed version stays restorable until explicitly removed
 -/
@@ -66,6 +67,68 @@ theorem C04_carryIn_appends (c : Cfg) (tob : Option Tob) (force : Bool) (s : St)
     · exact ⟨_, upd_same _ _ _, hpre, rfl⟩
     · exact ⟨_, upd_same _ _ _, hpre, rfl⟩
     · exact ⟨r, hrec, List.prefix_refl _, rfl⟩
+
+/-- a gentle command is none of `remove`, `untrack`, `untrack --restore-versions` -/
+theorem gentle_not_removing {cmd : Cmd} (h : cmd.gentle = true) : cmd.removing = false := by
+  cases cmd with
+  | remove ps a f => simp [Cmd.gentle] at h
+  | untrack ps => simp [Cmd.gentle] at h
+  | untrackRestore ps bl => simp [Cmd.gentle] at h
+  | _ => rfl
+
+theorem run_recGrow (c : Cfg) (s : St) (cs : List Cmd) (hg : ∀ cmd ∈ cs, cmd.gentle = true) : RecGrow s (s.run c cs) := by
+  induction cs generalizing s with
+  | nil => exact RecGrow.refl s
+  | cons cmd cs ih =>
+    exact (step_recGrow c s cmd (gentle_not_removing (hg cmd (by simp)))).trans
+      (ih _ (fun x hx => hg x (by simp [hx])))
+
+/-- **C04_versions_persist**: along any history without `remove`, `untrack` and `--force`d carries — user
+    edits, new commits of the same path, copies, moves, rechecks, of any length — a version once recorded
+    for a tracked file stays recorded for it (the version list only grows) and its object stays in the
+    cache, bit for bit: the set of restorable versions contains every version ever committed. -/
+theorem C04_versions_persist (c : Cfg) (s : St) (cs : List Cmd) (hg : ∀ cmd ∈ cs, cmd.gentle = true)
+    (e : Ent) (he : e < s.next) (r : Rec) (hr : s.recs e = some r) (d : Digest) (hd : d ∈ r.digests)
+    (a : Addr) (o : Obj) (ho : s.cache a = some o) :
+    (∃ r', (s.run c cs).recs e = some r' ∧ r.digests <+: r'.digests ∧ d ∈ r'.digests) ∧
+    (s.run c cs).cache a = some o := by
+  obtain ⟨r', hr', hp⟩ := (run_recGrow c s cs hg).2 e he r hr
+  exact ⟨⟨r', hr', hp, hp.subset hd⟩, C04_cache_shrinks_only_on_remove c s cs hg a o ho⟩
+
+/-- **C04_committed_stays_restorable** (the "stays true after any later sequence" clause of C01): a file
+    committed at some moment (`s`: entity `e`, path `p`, current digest `d`, object present) is, after
+    ANY later gentle history, still restorable: its version is still in the entity's list, the object
+    is untouched — and as long as `p` still designates the entity and no newer version was committed,
+    deleting or damaging the workspace copy and running `recheck` (`--force` for damage) gives back
+    exactly the object's bytes, with every method. -/
+theorem C04_committed_stays_restorable (c : Cfg) (s : St) (cs : List Cmd) (hg : ∀ cmd ∈ cs, cmd.gentle = true)
+    (p : Path) (e : Ent) (r : Rec) (d : Digest) (o : Obj)
+    (hfind : s.findEnt p = some e) (hrec : s.recs e = some r) (hcur : r.cur = some d)
+    (hobj : s.cache (addrOf p d) = some o) :
+    let s' := s.run c cs
+    (∃ r', s'.recs e = some r' ∧ d ∈ r'.digests) ∧ s'.cache (addrOf p d) = some o ∧
+    ∀ r' n (m : Option Method) (force : Bool), s'.findEnt p = some e → s'.recs e = some r' → r'.cur = some d →
+      r'.md = .stamp n → (s'.ws p = none ∨ (force = true ∧ ((s'.ws p).isSome → (s'.readThrough p).isSome))) →
+      (s'.recheckOne c m force p).2 = .ok ∧ ∃ k, (s'.recheckOne c m force p).1.readThrough p = some (o.b, k) := by
+  have hd : d ∈ r.digests := by
+    unfold Rec.cur at hcur
+    exact List.mem_of_getLast? hcur
+  obtain ⟨⟨r', hr', _, hd'⟩, hkeep⟩ := C04_versions_persist c s cs hg e (findEnt_lt hfind) r hrec d hd (addrOf p d) o hobj
+  refine ⟨⟨r', hr', hd'⟩, hkeep, ?_⟩
+  intro r'' n m force hf' hr'' hcur' hmd' hdam
+  have := C01_recheck_restores c (s.run c cs) p e r'' d o n m force hf' hr'' hcur' hmd' hkeep hdam
+  exact ⟨this.1, this.2.1⟩
+
+/-- non-vacuity: a file committed, then edited, committed again and moved: the first version is still
+    recorded and its object is still in the cache -/
+example :
+    let s := ((St.init.userWrite ⟨0, 1⟩ [104]).track {} {} [⟨0, 1⟩]).1
+    let cs := [Cmd.write ⟨0, 1⟩ [105], .carryIn [⟨0, 1⟩] none false, .move ⟨0, 1⟩ ⟨1, 1⟩ {}]
+    (∀ cmd ∈ cs, cmd.gentle = true) ∧ s.findEnt ⟨0, 1⟩ = some 1 ∧
+    ((s.run {} cs).recs 1).map (·.digests) = some [⟨0, [104]⟩, ⟨0, [105]⟩] ∧
+    ((s.run {} cs).recs 1).map (·.path) = some ⟨1, 1⟩ ∧
+    ((s.run {} cs).cache ⟨⟨0, [104]⟩, 1⟩).isSome = true := by
+  decide
 
 /-! ### `untrack --restore-versions`
 
@@ -174,6 +237,10 @@ open Repo in
 #print axioms C04_track_appends
 open Repo in
 #print axioms C04_carryIn_appends
+open Repo in
+#print axioms C04_versions_persist
+open Repo in
+#print axioms C04_committed_stays_restorable
 open Repo in
 #print axioms C04_restore_versions_before_delete
 open Repo in
